@@ -113,7 +113,8 @@ func caseDir(tag string) string {
 				}
 			}
 		}
-		d, err := os.MkdirTemp(base, "p19-run-")
+		sweepStaleScratch(base)
+		d, err := os.MkdirTemp(base, fmt.Sprintf("p19-run-%d-", os.Getpid()))
 		if err != nil {
 			panic(err)
 		}
@@ -124,6 +125,27 @@ func caseDir(tag string) string {
 		panic(err)
 	}
 	return d
+}
+
+// sweepStaleScratch removes scratch directories of p19 processes that no longer
+// exist (fuzz workers and shards killed by a watchdog cannot clean up themselves).
+func sweepStaleScratch(base string) {
+	ents, err := os.ReadDir(base)
+	if err != nil {
+		return
+	}
+	for _, e := range ents {
+		var pid int
+		if !e.IsDir() || !strings.HasPrefix(e.Name(), "p19-run-") {
+			continue
+		}
+		if n, _ := fmt.Sscanf(e.Name(), "p19-run-%d-", &pid); n != 1 || pid <= 0 {
+			continue
+		}
+		if _, err := os.Stat(fmt.Sprintf("/proc/%d", pid)); os.IsNotExist(err) {
+			_ = os.RemoveAll(filepath.Join(base, e.Name()))
+		}
+	}
 }
 
 func TestMain(m *testing.M) {
